@@ -22,6 +22,8 @@ def gen_spec(ch, n, payloads, outs_palette=None, allow_noout=True, max_inputs=2,
             for m in range(k):
                 i, o = ch.choose(cands, f"in{j}_{m}")
                 inputs.append((input_names[m], i, o))
+            if k == 2 and ch.flag(f"swap{j}"):
+                inputs.reverse()  # the same inputs declared in the other order
         kind = ch.choose(kinds, f"outs{j}")
         payload = ch.choose(payloads, f"payload{j}")
         spec.append({"outputs": outs_palette[kind], "payload": payload, "inputs": inputs})
